@@ -103,6 +103,11 @@ func discharge(o *Obl, cfg *solverCfg, idx int, extra ...string) {
 		}
 		return
 	}
+	if o.shortFirst && len(extra) == 0 {
+		c2 := *cfg
+		c2.quickTO, c2.fallback = 4, 4
+		cfg = &c2
+	}
 	// staged race: z3-new starts at once; if it has not answered after one
 	// second, cvc5 and z3 4.8 join. The first unsat wins and stops the rest.
 	type r struct {
